@@ -31,7 +31,7 @@ def main() -> int:
         proof = framework.proof_audit(pid)
     if tier == "thorough" and not replay_path:
         proof.update(framework.leanchecker(pid))
-    run = framework.Run(pid, tier, seed, rule=mod.RULE)
+    run = framework.Run(pid, tier, seed if not replay_path else 999999, rule=mod.RULE, clean=not replay_path)
     run.assumptions = list(getattr(mod, "ASSUMPTIONS", []))
     try:
         if replay_path:
